@@ -125,7 +125,8 @@ class RecBase(_Rec, rfb.RFBClient):
 
 class RecLib(_Rec, vclient.VNCDoToolClient):
     def _fill(self, x, y, w, h, color):
-        rfb.RFBClient.fillRectangle(self, x, y, w, h, color)
+        # whatever fillRectangle the client class has (today: the base class' "repeat the colour and call updateRectangle")
+        super(_Rec, self).fillRectangle(x, y, w, h, color)
 
 
 from vncdotool import command as vcommand  # noqa: E402
@@ -133,7 +134,7 @@ from vncdotool import command as vcommand  # noqa: E402
 
 class RecCli(_Rec, vcommand.VNCDoCLIClient):
     def _fill(self, x, y, w, h, color):
-        rfb.RFBClient.fillRectangle(self, x, y, w, h, color)
+        super(_Rec, self).fillRectangle(x, y, w, h, color)
 
 
 class RecFac(Fac):
@@ -146,7 +147,7 @@ class RecFac(Fac):
 
 class RecVM(_Rec, vclient.VMWareClient):
     def _fill(self, x, y, w, h, color):
-        rfb.RFBClient.fillRectangle(self, x, y, w, h, color)
+        super(_Rec, self).fillRectangle(x, y, w, h, color)
 
 
 KINDS = {"base": RecBase, "lib": RecLib, "cli": RecCli, "vmware": RecVM}
